@@ -62,6 +62,8 @@ func c13Alphabet(algo string, peers []string) []nhEvent {
 	for _, p := range peers {
 		ev = append(ev, nhEvent{Op: "up", P: p}, nhEvent{Op: "down", P: p}, nhEvent{Op: "fail", P: p}, nhEvent{Op: "ok", P: p})
 	}
+	// a second convergence adapter (another address) to the node r1
+	ev = append(ev, nhEvent{Op: "up", P: "r1#2"}, nhEvent{Op: "down", P: "r1#2"})
 	if algo == "dtlsr" {
 		ev = append(ev, nhEvent{Op: "receive", B: 2, P: "r1", Q: "r1"}, nhEvent{Op: "receive", B: 3, P: "r1", Q: "r1"}, nhEvent{Op: "receive", B: 3, P: "r2", Q: "r2"})
 	}
@@ -103,12 +105,19 @@ func c13Oracle(r *nhRun) (string, string) {
 	if e.Op == "restart" && !storeKept {
 		return "", ""
 	}
+	okNow := map[string]string{} // bundle/peer -> adapter of a successful transmission earlier in this step
 	for _, s := range last.Sends {
 		for i, t := range r.tr {
 			if !t.Accepted || idOfSend(s) != r.idString(i) {
 				continue
 			}
 			dest := r.sc.Bundles[i].Dest
+			if via, dup := okNow[fmt.Sprint(i, "/", s.Peer)]; dup && s.Peer != dest && via != s.Via {
+				return "sent-twice-to-same-peer:" + algo + ":two-adapters", fmt.Sprintf("b%d was transmitted successfully to node %s through adapter %s and in the same forwarding step handed to the same node again through adapter %s", i, s.Peer, via, s.Via)
+			}
+			if s.OK {
+				okNow[fmt.Sprint(i, "/", s.Peer)] = s.Via
+			}
 			if s.Peer == dest {
 				continue // direct delivery to the destination node is not a choice of the routing algorithm
 			}
